@@ -1,11 +1,16 @@
 /-
 C05 — in-flight operations never share a message ID; IDs stay within 1..2^31-1; wrap-around skips
 IDs in use.  Part 1: the allocator (`Ldap::next_msgid`), parametric in the bound `N`.
-Part 2 (uniqueness among outstanding operations over all interleavings) is `C05_unique` below,
-over the connection model.
+Part 2, over the connection model and whole histories: `C05_unique` (in every reachable state the
+operations the connection still knows about — between allocation and queueing, queued, or registered
+in a routing map — carry pairwise different IDs), `C05_request_id_unique` (the ID a request leaves
+with differs from that of every other such operation) and `C05_range` (every ID is within 1..N),
+for ANY interleaving of any number of handles' calls with the driver and the server.  Hypothesis
+`FreshRun2` (finding F13: needs a full wrap of the ID space while one call is stuck before the
+driver), discharged for all histories with at most N allocations (`C05_unique_nowrap`).
 -/
 import Ldap3V.Lemmas.IdAlloc
-import Ldap3V.Lemmas.ConnSteps
+import Ldap3V.Lemmas.ConnUniq
 namespace Ldap3V
 
 /-- The allocator returns the FIRST free ID in the cyclic order last+1, …, N, 1, …, last; it is
@@ -45,12 +50,7 @@ theorem C05_wrap (N : Nat) (inUse : List Nat) (hN : 1 ≤ N) :
 /-- In the connection model an allocation is ONE atomic step (the real code holds the table's mutex
 across the whole loop), whatever else is going on: the ID handed out is not reserved by anybody,
 becomes reserved in the same step, and becomes the new counter position.  With `C05_alloc_spec` it
-is the first free ID in cyclic order.  (Uniqueness among all operations still registered with the
-driver, over whole histories, additionally needs that a reserved ID is only released together
-with its registration — C13's step theorems — and that no ID is handed out again while a stale
-scrub for it is still queued, which takes 2^31-1 further allocations: finding F13; the whole-history
-statement is checked by lane `ids` (server-side oracle) and by the model explorer, and is not
-claimed as a theorem yet.) -/
+is the first free ID in cyclic order. -/
 theorem C05_alloc_step (s : Conn.St) (kind : Conn.Kind) (id : Nat) (h : nextId s.N s.last s.inUse = .ok id) :
     ∃ s', Conn.step s (.alloc kind) = some (s', .id id) ∧ s'.last = id ∧ s'.inUse = id :: s.inUse ∧
       (∃ o : Conn.Op, s'.ops = s.ops ++ [o] ∧ o.id = id ∧ o.kind = kind ∧ o.phase = .allocated) := by
@@ -62,7 +62,67 @@ theorem C05_never_reserved (N last : Nat) (inUse : List Nat) (id : Nat) (hl : 1 
     (h : nextId N last inUse = .ok id) : id ∉ inUse :=
   ((C05_alloc_spec N last inUse hl hN).1 id h).2.2.1
 
+open Conn in
+/-- **C05, whole histories: outstanding operations never share a message ID.**  In every state
+reachable from a fresh connection, two different operations that are outstanding (`Live`: the call
+is between allocating the ID and queueing the request, the request is queued, or the driver holds a
+routing entry for it) have different IDs. -/
+theorem C05_unique (N : Nat) (evs : List Ev) (hf : FreshRun2 (init N) evs) (i j : Nat) (oi oj : Op)
+    (hi : (run (init N) evs).ops[i]? = some oi) (hj : (run (init N) evs).ops[j]? = some oj)
+    (li : Live (run (init N) evs) i oi) (lj : Live (run (init N) evs) j oj) (hne : i ≠ j) : oi.id ≠ oj.id :=
+  fun e => hne ((Uniq.run N evs hf).uniq i j oi oj hi hj li lj e)
+
+open Conn in
+/-- the same without any hypothesis on the schedule, for every history that allocates at most `N`
+(= 2^31-1) IDs -/
+theorem C05_unique_nowrap (N : Nat) (evs : List Ev) (hcount : allocCount evs ≤ N) (i j : Nat) (oi oj : Op)
+    (hi : (run (init N) evs).ops[i]? = some oi) (hj : (run (init N) evs).ops[j]? = some oj)
+    (li : Live (run (init N) evs) i oi) (lj : Live (run (init N) evs) j oj) (hne : i ≠ j) : oi.id ≠ oj.id :=
+  C05_unique N evs (freshRun2_init N evs hcount) i j oi oj hi hj li lj hne
+
+open Conn in
+/-- **the ID a request leaves the client with** (the driver writes request `i` — `(o.id, o.kind)` is
+appended to the wire) differs from the ID of every other outstanding operation, and every routing
+entry the driver holds at that moment is for a different ID -/
+theorem C05_request_id_unique (N : Nat) (evs : List Ev) (hf : FreshRun2 (init N) evs) (i : Nat) (rest : List Nat) (o : Op)
+    (hq : (run (init N) evs).opQ = i :: rest) (ho : (run (init N) evs).ops[i]? = some o) :
+    (∀ (j : Nat) (oj : Op), (run (init N) evs).ops[j]? = some oj → Live (run (init N) evs) j oj → j ≠ i → oj.id ≠ o.id) ∧
+    (∀ p ∈ (run (init N) evs).resultmap, p.1 ≠ o.id) ∧ (∀ p ∈ (run (init N) evs).searchmap, p.1 ≠ o.id) := by
+  obtain ⟨hu, ha, _⟩ := Uniq.run' evs _ (Uniq.init N) (Acct.init N) (RouteInv.init N) hf
+  refine ⟨fun j oj hoj lj hne e => hne (hu.uniq j i oj o hoj ho lj (Or.inr (Or.inl (by rw [hq]; simp))) e), ?_⟩
+  exact hu.head_not_in_maps ha hq ho
+
+open Conn in
+/-- a routing entry is held only under an ID that is reserved -/
+theorem C05_registered_ids_reserved (N : Nat) (evs : List Ev) (hf : FreshRun2 (init N) evs) :
+    (∀ p ∈ (run (init N) evs).resultmap, p.1 ∈ (run (init N) evs).inUse) ∧
+    (∀ p ∈ (run (init N) evs).searchmap, p.1 ∈ (run (init N) evs).inUse) :=
+  (Uniq.run N evs hf).mapIn
+
+open Conn in
+/-- **every message ID is between 1 and N** (= 2^31-1), after any history -/
+theorem C05_range (N : Nat) (hN : 1 ≤ N) (evs : List Ev) (i : Nat) (o : Op)
+    (ho : (run (init N) evs).ops[i]? = some o) : 1 ≤ o.id ∧ o.id ≤ N := by
+  have h0 : InRange (init N) := ⟨by simp [init], fun _ => rfl, fun x hx => by simp [init, ids] at hx⟩
+  obtain ⟨⟨_, _, h3⟩, hn⟩ := inRange_run evs (init N) hN h0
+  have : o.id ∈ ids (run (init N) evs).ops := by
+    unfold ids; exact List.mem_map.mpr ⟨o, List.mem_of_getElem? ho, rfl⟩
+  have := h3 _ this
+  rw [hn] at this
+  exact this
+
 /-! ### non-vacuity (tests) -/
+open Conn in
+/-- a reachable state with three outstanding operations (one registered, one queued, one between
+allocation and queueing): the hypotheses of `C05_unique_nowrap` are satisfiable -/
+example :
+    let evs : List Ev := [.alloc .single, .enqueue 0 none, .drvOp true, .alloc .search, .enqueue 1 none, .alloc .single]
+    let s := run (init 100) evs
+    allocCount evs ≤ 100 ∧
+    (∃ o, s.ops[0]? = some o ∧ Live s 0 o) ∧ (∃ o, s.ops[1]? = some o ∧ Live s 1 o) ∧ (∃ o, s.ops[2]? = some o ∧ Live s 2 o) := by
+  refine ⟨by decide, ⟨_, rfl, Or.inr (Or.inr (Or.inl (by decide)))⟩, ⟨_, rfl, Or.inr (Or.inl (by decide))⟩,
+    ⟨_, rfl, Or.inl (by decide)⟩⟩
+
 example : nextId 7 7 [7, 1, 2] = .ok 3 := by decide
 example : nextId 7 5 [6, 7, 1] = .ok 2 := by decide
 example : nextId 3 2 [1, 2, 3] = .panic := by decide
